@@ -197,6 +197,42 @@ func TestVerif_C16(t *testing.T) {
 				c.Count("outage_probes", 1)
 				c.Count("requests_during_outage", int64(2*nreq))
 			}
+			// a test recording requested through the service, a bad frame while it runs, more
+			// frames and more requests: the pipeline goes on (no panic, every frame processed)
+			{
+				rp, err := prepareConn(scratch, cfg, cam)
+				if err != nil {
+					c.Inconclusive("prepareConn: " + err.Error())
+					return
+				}
+				reqAt, badAt := 2+int(idx%4), 6+int(idx%13)
+				pframes := []*pFrame{}
+				for i := 0; i < 45; i++ {
+					pf := &pFrame{Seq: 47000 + i, TimeOnMS: timeOnFor(47000 + i), FPATempCK: 30000, FPAFFCCK: 30000, Pix: newPix(cam.ResX, cam.ResY, uniformValue(47000+i))}
+					if i == badAt {
+						pf.Pix[5][5] = 0
+					}
+					pframes = append(pframes, pf)
+				}
+				var processed, received int64
+				rp.serve(pacedFeed(cam, pframes, 0), func(name string) {
+					switch name {
+					case "conn.frame.received":
+						k := atomic.AddInt64(&received, 1)
+						if int(k) == reqAt || int(k) == badAt+3 || int(k) == 40 {
+							(&service{}).TakeTestRecording()
+						}
+					case "conn.frame.processed":
+						atomic.AddInt64(&processed, 1)
+					}
+				})
+				if rp.Err != io.EOF || atomic.LoadInt64(&processed) != 45 {
+					c.Violation("request-stalls-pipeline", "test recording across a bad frame", fmt.Sprintf("test recording requested before frame %d, bad frame %d: handleConn returned %v after processing %d of 45 frames", reqAt, badAt, rp.Err, atomic.LoadInt64(&processed)))
+					return
+				}
+				rp.cleanup()
+				c.Count("test_recordings_across_a_bad_frame", 1)
+			}
 			mu.Lock()
 			processor, headerInfo = nil, nil
 			mu.Unlock()
